@@ -194,14 +194,15 @@ CHECKS['C04'] = dict(
     text='Theorems (unbounded: any depth, length and payloads): C04_parse_encode (parse (enc forest) = forest for every well-formed box '
          'forest over the container table with 32-bit sizes), C04_encode_parse (every byte string the parser accepts re-encodes to '
          'exactly those bytes), C04_be32 / C04_be64, and for the typed field codecs C04_typed_decode_encode / C04_typed_encode_decode: for '
-         'EVERY field layout (the layouts of mvhd, tkhd, mdhd, mehd, tfdt, mfhd, trex, tfhd, trun, saio, tenc, pssh for every version, '
-         'flags word and count are instances of Model/FieldModel.layout_of) decoding an encoding returns the values and whatever the '
-         'decoder accepts re-encodes to exactly the bytes consumed. Tied to /repo by differential runs of Mp4Atom.load/encode (eager and '
+         'EVERY field layout (the layouts of mvhd, tkhd, mdhd, mehd, tfdt, mfhd, trex, tfhd, trun, saio, saiz, sidx, tenc, pssh, btrt, pasp, '
+         'frma, schm, senc for every version, flags word and count are instances of Model/FieldModel.layout_of / l_senc) decoding an '
+         'encoding returns the values and whatever the decoder accepts re-encodes to exactly the bytes consumed; '
+         'C04_senc_bytes_match_saiz_sizes (per sample the senc bytes are as long as the size saiz lists). Tied to /repo by differential runs of Mp4Atom.load/encode (eager and '
          'lazy) against the framing model on fixture boxes and generated forests, and of the parsed fields of every typed box (fixtures '
          '+ boxes written from the specification by an independent encoder: both versions, all flag combinations, ids with leading '
          'zeros) against the layout model. Oracle on the real library: byte-exact round trip in both modes, identical field values '
          'eager vs lazy, JSON form and back, sizes nest - in memory and on the wire - after edit scripts (independent walker).',
-    note=TB + 'PARTIAL: box classes outside the layout list (sample entries, avcC / hvcC, esds descriptors, senc, sidx, emsg strings) are '
+    note=TB + 'PARTIAL: box classes outside the layout list (the fixed part of sample entries, avcC / hvcC, esds descriptors, emsg / hdlr strings) are '
          'decided by the oracle on fixture and synthetic boxes only; timestamps are compared as raw integers by the model and as '
          'datetimes by the library; 64-bit / to-end size forms are outside the model (known finding size-forms).',
     technique='Coq proof (induction over the parser fuel with a weight measure; big-endian field codec lemmas, induction over layouts) + '
@@ -290,13 +291,15 @@ CHECKS['C18'] = dict(
     text='Theorems (over all segment facts): C18_no_false_positive (a segment with the properties the server guarantees - C03 offsets, '
          'C02/C06 numbering and timing - produces no validator error), C18_detects_sequence_number, C18_detects_decode_time (beyond the '
          'tolerance) with C18_decode_time_tolerance (within it the validator is provably silent), C18_detects_trun_offset, '
-         'C18_detects_saio_offset, C18_detects_missing_segment, C18_timeline_gap, about a transcription of the per-segment decision '
-         'predicates of media_segment.py. Tied to /repo by running the REAL DashValidator through an in-process client that rewrites '
+         'C18_detects_saio_offset, C18_detects_missing_segment, C18_timeline_gap, C18_tolerance_nonnegative, the manifest-level '
+         'C18_manifest_no_false_positive / C18_detects_missing_availabilityStartTime / _minBufferTime / changed AST, about a '
+         'transcription of the per-segment decision predicates of media_segment.py, the tolerance rule of representation.py and the '
+         'manifest rule set. Tied to /repo by running the REAL DashValidator through an in-process client that rewrites '
          'one response: for every validated segment (pristine and corrupted) the facts are extracted from the bytes it received by the '
          'independent walker and the model error list is compared with the errors the validator recorded for that segment. Oracle: '
          'pristine sessions (templates x modes x DRM x options, with refreshes) report nothing and terminate; every catalogue entry '
          '(segment, init segment and manifest level) yields an error located at the corrupted element.',
-    note=TB + 'PARTIAL: the validator\'s traversal, asyncio pool, XML loading and its manifest-level checks are executed, not modelled; '
+    note=TB + 'PARTIAL: the validator\'s traversal, asyncio pool and XML loading are executed, not modelled (the per-segment predicates, the manifest-level rule set and the tolerance rule are); '
          '"wrong decode time" is claimed beyond the validator\'s tolerance only.',
     technique='Coq proof (case analysis of the decision predicates, linear arithmetic) + differential correspondence against the real '
               'validator on rewritten responses + detection oracle over the corruption catalogue',
